@@ -328,6 +328,10 @@ def gen_hist(rng, n, spec_fn, raw34_fn):
                 ops.append(["F", s, rng.random() < 0.4])
             else:
                 ops.append(["C"])
+            if rng.random() < 0.45:
+                # look at the object between two assignments (as_affine / apply / compose / inv / param):
+                # an observation must not influence what later operations and observations return
+                ops.append(["A", rng.choice(["as_affine", "apply", "compose", "inv", "param", "str"])])
         pts = [[rng.choice([0.0, 1.0, -1.0, 2.0, 0.5, -3.25, 7.0]) for _ in range(3)] for _ in range(rng.choice([1, 2, 3]))]
         out.append({"kind": "hist", "cls": cls, "radius": radius, "arg": arg, "ops": ops, "pts": pts,
                     "other": spec_fn(rng, None)})
@@ -604,8 +608,26 @@ class ExtMixin:
         nops = 0
         if t is not None:
             for op in c["ops"]:
-                nops += 1
                 k = op[0]
+                if k == "A":      # pure observation: no token for the model, the state must not change
+                    try:
+                        opts = np.array(c["pts"], dtype=float).reshape(-1, 3)
+                        if op[1] == "as_affine":
+                            t.as_affine()
+                        elif op[1] == "apply":
+                            t.apply(opts)
+                        elif op[1] == "compose":
+                            t.compose(self._build_spec(c["other"]))
+                        elif op[1] == "inv":
+                            t.inv()
+                        elif op[1] == "param":
+                            t.param
+                        else:
+                            str(t)
+                    except Exception:     # noqa: BLE001  (singular / overflowing intermediate states)
+                        pass
+                    continue
+                nops += 1
                 try:
                     if k == "P":
                         optoks.append(f"P {len(op[1])} {frs(op[1])}".strip())
@@ -662,6 +684,16 @@ class ExtMixin:
             Ma = np.asarray(t.as_affine(), dtype=float)
             impl.append(("vals", a34(Ma), 1e-10 * (1 + mag(Ma[:3, :]))))
             try:
+                if fail is None:
+                    # the matrix depends on the current parameters only: a fresh object of the class holding the
+                    # same parameter vector (and direct flag) gives the same matrix, whatever was observed before
+                    fresh = cls(radius=radius)
+                    fresh._vec12 = np.array(t._vec12, copy=True)
+                    fresh._direct = t._direct
+                    d = far(np.asarray(fresh.as_affine(), dtype=float), Ma, 1e-12 * (1 + mag(Ma)))
+                    if d:
+                        fail = (f"{c['cls']}.as_affine() after a history differs from the matrix of a fresh "
+                                f"{c['cls']} holding the same parameter vector: {d}")
                 if fail is None:
                     g = [t.translation, t.rotation, t.scaling, t.pre_rotation]
                     want = [v[0:3], v[3:6], np.exp(v[6:9]), v[9:12]]
@@ -790,7 +822,12 @@ class ExtMixin:
         if opt is not oarg and fail is None:
             fail = "ChainTransform.optimizable is not the transform passed in"
         cls = c["opt"]["spec"]["cls"]
-        for p in c["hist"]:
+        for hi, p in enumerate(c["hist"]):
+            if hi % 2 == 0:     # look at the chain between assignments: observations must not influence later results
+                try:
+                    ct.apply(pts)
+                except Exception:     # noqa: BLE001
+                    pass
             v0 = np.array(opt._vec12, dtype=float).copy()
             pc = np.array(opt._precond, dtype=float).copy()
             p = np.array(p, dtype=float)
@@ -814,7 +851,12 @@ class ExtMixin:
             try:
                 y = np.asarray(ct.apply(pts), dtype=float).reshape(-1, 3)
                 x1 = pref.apply(pts) if pref is not None else pts
-                x2 = opt.apply(x1)
+                # through a fresh transform of the class holding the current parameter vector
+                fresh = type(opt)()
+                fresh._precond = np.array(opt._precond, copy=True)
+                fresh._vec12 = np.array(opt._vec12, copy=True)
+                fresh._direct = opt._direct
+                x2 = fresh.apply(x1)
                 x3 = qref.apply(x2) if qref is not None else x2
                 gen = c["pre"]["s"] == "gen" or c["post"]["s"] == "gen"
                 S = (1 + mag(pts, x1, x2, x3)) ** (2 if gen else 1)
